@@ -213,6 +213,18 @@ def install(eng):
                 vi = list(found)[0]
                 if vi is not None:
                     gwrite(eng, st, "kind", ICONST(vi + 1))
+                    # length of the request's option list (field `options` of the decoded packet)
+                    names_ = [f["name"] for f in pk["variants"][vi]["fields"]]
+                    if "options" in names_:
+                        oi = names_.index("options")
+                        for root, d_ in st.store.items():
+                            if root[0] == "L" and root[1] == efid and isinstance(root[2], int) and root[2] < len(body0.locals):
+                                tt = prog.types[body0.local_ty(root[2])]
+                                if tt["k"] == "adt" and tt["path"] == PACKET and d_.get(("$discr",)) is not None:
+                                    ln_ = eng.read(st, root, (("v", vi), oi, "$len"))
+                                    if ln_[0] == "i":
+                                        gwrite(eng, st, "optlen", ln_)
+                                    break
         if (base.startswith(GUARDED_PREFIX) and base not in PURE_FS) or base in GUARDED_EXACT:
             # ---- access policy (C06): what must be known before this effect, per request kind
             if base not in ("std::path::Path::exists",):
@@ -243,6 +255,27 @@ def install(eng):
                 st.ctx.entails_eq(vc[1], lin.const(0)) and st.ctx.entails(lin.le(lin.const(1), va[1]))
             eng.oblige(st, fr, bb, "ghost:validated", "%s only after a successful path validation" % base, ok,
                        "" if ok else "%s is reachable on a path where the request's path has not passed  !contains(\"..\") && ancestors().any(== root)" % base)
+        # ---- handshake reply (C09.a): OACK iff options, ACK 0 only for an option-less write
+        if base in SOCK_SEND and len(args) > 1:
+            v = args[1][0].get(())
+            vn = variant_of_pointee(eng, st, v)
+            ol = gread_opt(st, "optlen")
+            kd = gread_opt(st, "kind")
+            kn = kind_of_variant.get(const_of(kd) - 1) if kd is not None and const_of(kd) is not None else None
+            if vn == "Oack":
+                a_ = prog.adts.get(PACKET)
+                vi = [i for i, x in enumerate(a_["variants"]) if x["name"] == "Oack"][0]
+                ln_ = eng.read(st, v[1], v[2] + (("v", vi), 0, "$len"))
+                ok = ol is not None and ol[0] == "i" and st.ctx.entails(lin.le(lin.const(1), ol[1])) and ln_[0] == "i" and st.ctx.entails_eq(ln_[1], ol[1])
+                eng.oblige(st, fr, bb, "ghost:handshake", "Oack: sent only for a non-empty option list and echoes that list", ok,
+                           "" if ok else "an OACK can be sent for a request without recognised options, or does not carry the request's option list")
+            elif vn == "Ack":
+                a_ = prog.adts.get(PACKET)
+                vi = [i for i, x in enumerate(a_["variants"]) if x["name"] == "Ack"][0]
+                nv = eng.read(st, v[1], v[2] + (("v", vi), 0))
+                ok = ol is not None and ol[0] == "i" and st.ctx.entails_eq(ol[1], lin.const(0)) and kn == "Wrq" and nv[0] == "i" and nv[1] == (0, ())
+                eng.oblige(st, fr, bb, "ghost:handshake", "Ack: ACK 0 only for a write request without options", ok,
+                           "" if ok else "ACK is sent as handshake reply although the request has options, is not a write request, or the number is not 0")
         # reply sent on the listening socket: remember the error code (for the rejection clauses)
         if base.endswith("socket::Socket>::send_to") or base in SOCK_SEND:
             v = args[1][0].get(()) if len(args) > 1 else None
